@@ -19,12 +19,8 @@ META = {
                'counts (bounded by n, n when all true, 0 when none), NumberofConst/NumberofVar stay within [0, n]; '
                'Violation::Check reports a violation iff the absolute violation exceeds epsabs and (reference value is 0 or the '
                'relative violation exceeds epsrel)',
-    'not_decided': 'selection of the constraints that are checked, recomputation of auxiliary variables (SolutionChecker / '
-                   'ConstraintKeeper templates), tolerance option plumbing, solve-result code 150 with sol:chk:fail; exact counting of '
-                   'Count / Numberof (needs an unbounded sum spec function); the converse direction of AllDiff; transcendental evaluators',
-    'not_under_contract': ['SolutionChecker::RecomputeAuxVars / VarVecRecomp', 'ConstraintKeeper::ComputeViolations',
-                           'ComputeValue for Exp/Log/Pow/trigonometric constraints (libm)', 'LinTerms/QuadTerms::ComputeValue',
-                           'cone constraint violations'],
+    'not_decided': 'recomputation of auxiliary variables (VarVecRecomp), the order of the constraint keepers, tolerance option plumbing, solve-result code 150 with sol:chk:fail; exact counting of Count / Numberof (needs an unbounded sum spec function); the converse direction of AllDiff; transcendental evaluators; the products / quotient inside the PL evaluator and the linear / quadratic term sums',
+    'not_under_contract': ['SolutionChecker::RecomputeAuxVars / VarVecRecomp', 'GenerateViolationsReport', 'ComputeValue for Exp/Log/Pow/trigonometric constraints (libm)', 'LinTerms/QuadTerms::ComputeValue', 'cone constraint violations'],
     'assumptions': ['constraint arguments are valid variable indices (flat model invariant; assumed at every access of x)',
                     'std::vector<int> arguments / std::array parameters rendered as (pointer,length)'],
     'trusted_base': ['CBMC models of fabs / round'],
@@ -107,6 +103,11 @@ def make_replay(which):
         on a grid of points (replay/c07_replay.cc)"""
         import subprocess
         from vp import native
+        if which in ('ComputeViolations', 'CheckObjs', 'PL'):     # oracle sweeps over a stand-in converter, adapted from the demonstrations of seeded changes
+            name = {'ComputeViolations': 'c07_keeper_replay', 'CheckObjs': 'c07_objs_replay', 'PL': 'c07_pl_replay'}[which]
+            drv = native.build_driver(name + '.cc', name, native.MP_SOURCES, ['-O0'])[0]
+            p = subprocess.run([drv], capture_output=True, text=True, timeout=300)
+            return p.returncode == 1, (p.stdout + p.stderr)[-2500:], drv
         if which == 'CheckVars':     # variables: the real SolutionChecker on a one-variable model stand-in (replay/c07_vars_replay.cc)
             drv = native.build_driver('c07_vars_replay.cc', 'c07_vars_replay', native.MP_SOURCES, ['-O0'])[0]
             p = subprocess.run([drv], capture_output=True, text=True, timeout=300)
@@ -196,6 +197,8 @@ def _harnesses(tier, seed):
     hs.append(h_check())
     hs.append(h_checkvars())
     hs.append(h_compute_violations())
+    hs.append(h_checkobjs())
+    hs.append(h_pl_value())
     hs += [h_indicator(), h_functional_violation(), h_algebraic_violation()]
     for k in (-2, -1, 0, 1, 2):
         hs += h_algconrhs(k)
@@ -434,6 +437,83 @@ void harness(void) { vp_one = 1; g_n = nondet_int(); g_w = nondet_int(); g_mode 
 ''']
     return Harness('C07.ConstraintKeeper.ComputeViolations', 'C07', parts, enforce='ComputeViolations', loop_contracts=True, expect_loop_obligations=1,
                    stubs=['constraint flags / depth (arbitrary per constraint)', 'con_.ComputeViolation (C07.*.ComputeViolation)', 'Violation::Check (C07.Violation.Check)', 'the violation summary map (ghost)'])
+
+
+def h_checkobjs():
+    """SolutionChecker::CheckObjs: every objective that has a reported value (the first min(#objectives, #reported values) ones) is checked
+    once: the violation is the distance between the reported value and the value recomputed at the point, measured relative to the recomputed
+    value, with the feasibility tolerances in their places (absolute, relative).  Witness objective g_w, loop contract."""
+    done = '(g_w >= i && g_w < g_m)'
+    parts = [VIOL, '''
+size_t g_nobj, g_nvals, g_m, g_w; double g_wval, g_wrep; double g_tol, g_rel; int g_seen;
+#define VP_MPCD(x) x
+static size_t objs_size(void) { return g_nobj; }
+static size_t vals_size(void) { return g_nvals; }
+static size_t min(size_t a, size_t b) { return b < a ? b : a; }
+static double vp_value(size_t i) { double v = nondet_double(); __CPROVER_assume(v > -__builtin_inf() && v < __builtin_inf()); return i == g_w ? g_wval : v; }    /* ComputeValue(objs[i], x) */
+static double vp_reported(size_t i) { double v = nondet_double(); __CPROVER_assume(v > -__builtin_inf() && v < __builtin_inf()); return i == g_w ? g_wrep : v; }  /* chk.obj_vals()[i] */
+static double sol_feas_tol(void) { return g_tol; }
+static double sol_feas_tol_rel(void) { return g_rel; }
+static void vp_checkviol(Violation v, double epsabs, double epsrel, size_t nm) {
+  __CPROVER_assert(nm < g_m, "an objective that has a reported value");
+  __CPROVER_assert(epsabs == g_tol && epsrel == g_rel, "objective values are checked with the feasibility tolerances: absolute first, relative second");
+  if (nm == g_w) {
+    __CPROVER_assert(v.valX_ == g_wval, "the objective violation is measured relative to the recomputed objective value");
+    __CPROVER_assert(v.viol_ >= 0.0 && (v.viol_ > 0.0) == (g_wrep != g_wval), "the objective violation is positive exactly when the reported value differs from the recomputed one");
+    g_seen++; } }
+''',
+             Fn(SOLCHK, r'void CheckObjs\(SolCheck& chk\)', 'void CheckObjs(void)',
+                contract='__CPROVER_requires(g_nobj <= 1000000 && g_nvals <= 1000000 && g_m == (g_nobj < g_nvals ? g_nobj : g_nvals) && g_seen == 0 && g_tol == g_tol && g_rel == g_rel && '
+                         'g_wval > -__builtin_inf() && g_wval < __builtin_inf() && g_wrep > -__builtin_inf() && g_wrep < __builtin_inf()) '
+                         '__CPROVER_ensures(g_seen == (g_w < g_m ? 1 : 0)) __CPROVER_assigns(g_seen)',
+                subst=[(r'const auto& objs = MPCD\(\s*GetModel\(\)\s*\)\.get_objectives\(\);', '', 1), (r'MPCD\(\s*', 'VP_MPCD(', -1),
+                       (r'std::min\(', 'min(', 1), (r'objs\.size\(\)', 'objs_size()', 1), (r'chk\.obj_vals\(\)\.size\(\)', 'vals_size()', 1),
+                       (r'ComputeValue\(objs\[i\], chk\.x_ext\(\)\)', 'vp_value(i)', 1), (r'chk\.obj_vals\(\)\[i\]', 'vp_reported(i)', 1),
+                       (r'chk\.ObjViols\(\)\.CheckViol\(\s*\{([^{}]*)\}', r'vp_checkviol((Violation){\1}', 1), (r'objs\[i\]\.name\(\)', 'i', 1)],
+                loops={0: '__CPROVER_assigns(i, g_seen) __CPROVER_loop_invariant(i <= g_m && g_seen == (%s ? 1 : 0)) __CPROVER_decreases(i)' % done},
+                label='mp::SolutionChecker::CheckObjs', nmatches=1), '''
+void harness(void) { vp_one = 1; g_nobj = nondet_size_t(); g_nvals = nondet_size_t(); g_m = nondet_size_t(); g_w = nondet_size_t(); g_wval = nondet_double(); g_wrep = nondet_double();
+  g_tol = nondet_double(); g_rel = nondet_double(); g_seen = 0; CheckObjs(); VP_REACH("normal return"); }
+''']
+    return Harness('C07.SolutionChecker.CheckObjs', 'C07', parts, enforce='CheckObjs', loop_contracts=True, expect_loop_obligations=1,
+                   stubs=['ComputeValue of an objective / the reported objective values (arbitrary finite numbers)', 'ViolSummary::CheckViol (call-site obligations; decision: C07.Violation.Check)'])
+
+
+def h_pl_value():
+    """ComputeValue(PLConstraint): the piecewise-linear function through the points (x_k, y_k), extended to the left with the first slope and to
+    the right with the last one.  At a breakpoint the value is y_k; left of the first point it lies BELOW y_front when the first slope times
+    the distance is positive (y_front - slope * distance), right of the last point ABOVE y_back when the last slope times the distance is positive;
+    inside a segment it is y_{k-1} plus the interpolation term.  The products / quotient are opaque ghost values (double multiplication and
+    division are beyond the back ends): the obligations are the side each term moves the value to (non-strict: a tiny term can be absorbed by rounding).  Search loop under a loop contract."""
+    parts = ['#include "mp_shim.h"\n#include <math.h>\nint vp_one;\n#define assert(x) __CPROVER_assert(x, "assert(" #x ") of the source holds")\n', '''
+int g_n; double *g_px, *g_py; double g_x0;
+double P_PRE, P_POST, P_MID;     /* PreSlope*(x_front - x0), PostSlope*(x0 - x_back), (dy)*(x0 - x_{i-1})/(dx): opaque */
+int g_branch, g_i0;
+static _Bool plp_empty(void) { return g_n == 0; }
+#define R __CPROVER_return_value
+''',
+             Fn(EVAL, r'double ComputeValue\(const PLConstraint& con, const VarVec& x\)', 'double ComputeValue_PL(void)',
+                contract='__CPROVER_requires(g_n >= 1 && g_n <= 1000 && __CPROVER_is_fresh(g_px, g_n * sizeof(double)) && __CPROVER_is_fresh(g_py, g_n * sizeof(double)) && g_x0 == g_x0 && '
+                         'P_PRE == P_PRE && P_POST == P_POST && P_MID == P_MID && g_px[0] == g_px[0] && g_px[g_n - 1] == g_px[g_n - 1] && g_px[0] <= g_px[g_n - 1] && '
+                         'g_py[0] > -1e300 && g_py[0] < 1e300 && g_py[g_n - 1] > -1e300 && g_py[g_n - 1] < 1e300 && P_PRE > -1e300 && P_PRE < 1e300 && P_POST > -1e300 && P_POST < 1e300) '
+                         '__CPROVER_ensures(g_x0 < g_px[0] ==> ((P_PRE > 0.0 ==> R <= g_py[0]) && (P_PRE < 0.0 ==> R >= g_py[0]) && (P_PRE == 0.0 ==> R == g_py[0]))) '
+                         '__CPROVER_ensures(g_x0 > g_px[g_n - 1] ==> ((P_POST > 0.0 ==> R >= g_py[g_n - 1]) && (P_POST < 0.0 ==> R <= g_py[g_n - 1]) && (P_POST == 0.0 ==> R == g_py[g_n - 1]))) '
+                         '__CPROVER_ensures((g_x0 >= g_px[0] && g_x0 <= g_px[g_n - 1]) ==> (g_i0 >= 0 && g_i0 < g_n && !(g_x0 > g_px[g_i0]) && (g_px[g_i0] == g_x0 ==> (g_branch == 1 && (g_py[g_i0] == g_py[g_i0] ==> R == g_py[g_i0]))) && '
+                         '(g_px[g_i0] != g_x0 ==> g_branch == 2))) __CPROVER_assigns(g_branch, g_i0)',
+                subst=[(r'const auto& plp = con\.GetParameters\(\)\.GetPLPoints\(\);', '', 1), (r'plp\.empty\(\)', 'plp_empty()', 1),
+                       (r'auto x0 = x\[con\.GetArguments\(\)\[0\]\];', 'double x0 = g_x0;', 1),
+                       (r'plp\.PreSlope\(\)\*\(plp\.x_\.front\(\) - x0\)', 'P_PRE', 1), (r'plp\.PostSlope\(\)\*\(x0 - plp\.x_\.back\(\)\)', 'P_POST', 1),
+                       (r'\(plp\.y_\[i0\]-plp\.y_\[i0-1\]\)\s*\* \(x0-plp\.x_\[i0-1\]\) / \(plp\.x_\[i0\]-plp\.x_\[i0-1\]\)', 'P_MID', 1),
+                       (r'plp\.x_\.front\(\)', 'g_px[0]', -1), (r'plp\.x_\.back\(\)', 'g_px[g_n - 1]', -1), (r'plp\.y_\.front\(\)', 'g_py[0]', -1), (r'plp\.y_\.back\(\)', 'g_py[g_n - 1]', -1),
+                       (r'plp\.x_\[', 'g_px[', -1), (r'plp\.y_\[', 'g_py[', -1),
+                       (r'return g_px\[i0\]==x0\s*\? g_py\[i0\]\s*: \(g_py\[i0-1\]\s*\+ P_MID\);', 'g_i0 = i0; if (g_px[i0]==x0) { g_branch = 1; return g_py[i0]; } g_branch = 2; __CPROVER_assert(i0 >= 1, "an inner segment has a left end"); return (g_py[i0-1] + P_MID);', 1)],
+                loops={0: '__CPROVER_assigns(i0) __CPROVER_loop_invariant(0 <= i0 && i0 < g_n) __CPROVER_decreases(g_n - i0)'},
+                label='mp::ComputeValue(PLConstraint)', nmatches=1), '''
+void harness(void) { vp_one = 1; g_n = nondet_int(); g_x0 = nondet_double(); P_PRE = nondet_double(); P_POST = nondet_double(); P_MID = nondet_double(); g_branch = 0;
+  ComputeValue_PL(); VP_REACH("normal return"); }
+''']
+    return Harness('C07.ComputeValue.PL', 'C07', parts, enforce='ComputeValue_PL', loop_contracts=True, expect_loop_obligations=1, timeout=600,
+                   stubs=['the slope * distance products and the interpolation term as opaque values', 'PLPoints as two arrays'])
 
 
 def h_check():
